@@ -152,12 +152,14 @@ def build_from_world(old_world, new_config: dict, new_name: str = None):
     combo_dict = nested_merge(old_config_copy, new_config, make_copies=True)
 
     # Make any additional changes to the configs before planet build
+    # The old world may be known by the name it was built with (`old_world.name`) and by the name in its configurations.
+    old_names = (old_world.name, old_config_copy['name'])
     variant = False
     if new_name is None:
         if 'name' in new_config:
             # There is a name in the new configuration file. Is it the same as the previous world's name?
             new_name = new_config['name']
-            if new_name == old_config_copy['name']:
+            if new_name in old_names:
                 variant = True
         else:
             new_name = combo_dict['name']
@@ -165,23 +167,20 @@ def build_from_world(old_world, new_config: dict, new_name: str = None):
     else:
         # User provided a new name as an argument, use it over anything else
         # Check if it matches the old world's name.
-        if new_name == old_config_copy['name']:
+        if new_name in old_names:
             variant = True
 
     if variant:
         # Come up with a new name so that it is clear that this new planet was built from a different one
-        if '_variant' in new_name:
-            # Already was a variant - add a number
-            world_name_pre = new_name.split('_variant')[0]
-            i = 2
-            while True:
-                new_variant_name = f'{world_name_pre}_variant_{i}'
-                if new_variant_name != new_name:
-                    break
-                i += 1
-            new_name = new_variant_name
-        else:
-            new_name = f'{new_name}_variant'
+        world_name_pre = new_name.split('_variant')[0]
+        # If the name already was a variant then add a number
+        i = 2 if '_variant' in new_name else 1
+        while True:
+            new_variant_name = f'{world_name_pre}_variant' if i == 1 else f'{world_name_pre}_variant_{i}'
+            if new_variant_name != new_name and new_variant_name not in old_names:
+                break
+            i += 1
+        new_name = new_variant_name
 
     combo_dict['name'] = new_name
 
